@@ -41,12 +41,18 @@ inductive WalkRes
   | stop (r : PResult)
   deriving Repr, DecidableEq
 
+/-- insertion into a list sorted by the lexicographic order on characters (= byte order of the
+UTF-8 encodings, which is how `readDirNames` sorts) -/
+def insertSorted (x : Str) : List Str → List Str
+  | [] => [x]
+  | y :: r => if x < y then x :: y :: r else y :: insertSorted x r
+
 /-- sorted names of the directory at physical path `p` -/
 def FS.readdir (fs : FS) (p : PPath) : List Str :=
   let names := fs.filterMap fun e =>
     if e.1.dropLast = p ∧ e.1 ≠ [] ∧ (fs.get e.1).isSome then e.1.getLast? else none
   let dedup := names.foldl (fun acc n => if acc.contains n then acc else acc ++ [n]) []
-  (dedup.toArray.qsort (fun a b => String.ofList a < String.ofList b)).toList
+  dedup.foldr insertSorted []
 
 /-- `os.Readlink` -/
 def FS.readlink (fs : FS) (path : Str) : Except Errno Str :=
@@ -180,10 +186,16 @@ def visit (fs : FS) (cwd : Str) (o : PackOpts) (rules : Option (List Rule)) (roo
                       | .skipDir => (st1, .cont)     -- Walk turns a final SkipDir into nil
                       | other => (st1, other)
                   | .ok (_, .file perm mt content) =>
+                    -- the header (size, mode, time) comes from the node `resolveExternalLink` found
+                    -- (lexical joins), the body from `os.Open(path)` (kernel resolution); when a
+                    -- directory component above a relative link is itself a link these may be two
+                    -- different files: a length mismatch makes the tar writer fail
                     match fs.readFile path with
                     | .error _ => (st, .stop .ioerr)
                     | .ok body =>
-                      let e : Entry := { name := sub, typ := tReg, mode := perm &&& 0o777, mtime := roundSec mt, link := [], body := content }
+                      if utf8Len body ≠ utf8Len content then (st, .stop .ioerr)
+                      else
+                      let e : Entry := { name := sub, typ := tReg, mode := perm &&& 0o777, mtime := roundSec mt, link := [], body := body }
                       ({ entries := st.entries ++ [e],
                          pmeta := { files := st.pmeta.files ++ [e.name], size := st.pmeta.size + utf8Len body } }, .cont)
                   | .ok _ => (st, .stop .ioerr)    -- "unexpected file mode" is not reached: header written as regular; see lane
